@@ -706,7 +706,7 @@ fn run_life(world: &Shared, setup: &Setup, steps: &mut u64) -> LifeEnd {
                             } else {
                                 0
                             };
-                            let t = w.vt + d;
+                            let t = w.vt.saturating_add(d).min(VT_MAX);
                             w.push(t, 2, What::ConsumerPoll);
                             consumer_poll_scheduled = true;
                         }
@@ -1056,13 +1056,13 @@ pub fn run_sm(profile: &Profile, cfg: &RunCfg) -> (RunOut, Shared, Option<Setup>
                 LifeEnd::Crash => {
                     // process restart: monotonic clock keeps running; some time passes
                     let d = w.draws.draw(&format!("L{life}/restart.delay"), 4);
-                    w.vt += [0, SEC, 60 * SEC, 3600 * SEC][d as usize];
+                    w.vt = w.vt.saturating_add([0, SEC, 60 * SEC, 3600 * SEC][d as usize]).min(VT_MAX);
                 }
                 LifeEnd::Reboot => {
                     w.stat("proc.reboot");
                     w.reboot_requested = None;
                     let d = w.draws.draw(&format!("L{life}/reboot.delay"), 4);
-                    w.vt += [SEC, 30 * SEC, 600 * SEC, 86400 * SEC][d as usize];
+                    w.vt = w.vt.saturating_add([SEC, 30 * SEC, 600 * SEC, 86400 * SEC][d as usize]).min(VT_MAX);
                     w.boot += 1;
                     w.boot_vt = w.vt;
                     // wall-clock relation across the reboot
